@@ -18,4 +18,10 @@ CHECKS = {
   "note": COMMON_NOTE + "Python bytes ordering / sorted / oct are modelled (lib/Order.v, StableSort.v, Hex.v). Agreement of the spec-level tree encoding with real git is validated with `git mktree` in the thorough tier (validation, not proof). SHA-1 itself is uninterpreted in the theorems.",
   "technique": "Coq proof (sorting/permutation, lexicographic order, decode-encode) over a hand-written model + extracted-model differential correspondence + regenerated tables",
  },
+ "C17": {
+  "text": "Theorems C17_exact, C17_progress and C17_callbacks prove, on a literal model of BaseDiscoveryGraph / RandomDirSamplingDiscoveryGraph / filter_known_objects, that for every set of contents, skipped contents and directories with distinct ids (entries may point outside the set; acyclicity is not even needed), every archive closed under 'known directory => known entries', every SAMPLE_SIZE > 0, every sampling sequence random.sample can produce and every set.pop order, the loop terminates (each round strictly shrinks undecided), the three returned lists are exactly the inputs filtered by 'missing' in input order, and the callbacks are a permutation of (object, not missing) with each object exactly once. C17_exact_any_sampler gives the same for an arbitrary sampler or pinpoints the inadmissible draw. The implementation is tied to the model by replaying its own draws in the extracted model (results, callback multiset, archive queries) on generated DAGs with patched SAMPLE_SIZE / random.sample and varied PYTHONHASHSEED, and the property is evaluated directly on the implementation.",
+  "design_ref": "DESIGN.md section 5, C17",
+  "note": COMMON_NOTE + "Python set/dict semantics, set.pop() and random.sample are modelled as duplicate-free lists with universally quantified pick/sampler oracles; the three archive methods are one function on ids (ids distinct); 0 < SAMPLE_SIZE is checked on the source value at run time.",
+  "technique": "Coq proof by state invariant + decreasing measure over a nondeterministic (oracle-driven) model of the discovery loop; extracted-model trace inclusion (sampler replay) against the implementation",
+ },
 }
